@@ -30,7 +30,9 @@ CONSTANTS MaxN,      \* number of indices fed: 0..MaxN
           MaxB,      \* bucket ids 0..MaxB-1 ("direct") / requested number of buckets 1..MaxB ("lengths")
           MaxSize,   \* batch sizes 1..MaxSize
           MaxLen,    \* utterance lengths 1..MaxLen ("lengths")
-          Sources    \* subset of {"direct", "lengths"}
+          Sources    \* subset of {"direct", "lengths"}; the modifier "zero" next to "lengths": the length
+                     \* vectors over 0..MaxLen that hold AT LEAST ONE utterance without frames / tokens (a
+                     \* (0, F) feature file, an empty transcript - legal data), fixed batch sizes only
 
 VARIABLES n, src,
           lens, nbreq, bsz, dyn,   \* "lengths": utterance lengths, requested buckets, batch size, dynamic sizing
@@ -115,11 +117,17 @@ InitDirect ==
   /\ drop \in BOOLEAN
   /\ Start
 
+\* Zero-length utterances.  The bounds, the assignment and the bucket machine are indifferent to a
+\* length 0 (it is the smallest length: class 0).  The DYNAMIC size of a class whose bound is 0 is
+\* undefined - "the greatest x with x * 0 <= Y * batch_size" does not exist, the code divides by the
+\* bound - so zero-length utterances are explored with fixed batch sizes only.
+ZeroLens == "zero" \in Sources
 InitLengths ==
   /\ src = "lengths"
   /\ n \in 0..MaxN
-  /\ lens \in [Idx -> 1..MaxLen]
-  /\ nbreq \in 1..MaxB /\ bsz \in 1..MaxSize /\ dyn \in BOOLEAN
+  /\ lens \in [Idx -> (IF ZeroLens THEN 0 ELSE 1)..MaxLen]
+  /\ (ZeroLens => \E i \in Idx : lens[i] = 0)    \* (the vectors without one: the configurations without "zero")
+  /\ nbreq \in 1..MaxB /\ bsz \in 1..MaxSize /\ dyn \in (IF ZeroLens THEN {FALSE} ELSE BOOLEAN)
   /\ LET bounds == IF n = 0 THEN <<>> ELSE BoundsOf(lens, n, nbreq)   \* empty data set: no buckets
      IN /\ i2b = [i \in Idx |-> BucketOfLen(bounds, lens[i])]
         /\ size = [j \in 0..(Len(bounds) - 1) |-> DynSize(bounds, j, bsz, dyn)]
